@@ -241,6 +241,9 @@ def make_env(w: World, main):
             w.stage("bm.apply_force_field", ff)
             if getattr(w, "residue_specs", None):
                 return [a for a in self.atoms if a.has_ff], [a for a in self.atoms if not a.has_ff]
+            if getattr(w, "unassigned_last", False):
+                # one atom (an ion, a cap) has no parameters: it is reported, it does not contribute to any residue charge
+                return list(self.atoms)[:-1], list(self.atoms)[-1:]
             return list(self.atoms), []
 
         def __getattr__(self, name):
